@@ -1,10 +1,13 @@
 """C04 — adapter lookup returns the most specific applicable registration."""
-from . import regcommon
+from . import regcommon, worldcommon
 
 THEOREMS = ["ZI.Registry.lookupRec_eq_first", "ZI.Registry.mem_rpaths", "ZI.Registry.C04_sound", "ZI.Registry.C04_complete", "ZI.Registry.C04_best",
             "ZI.Registry.rpaths_first_position", "ZI.Registry.C04_chain", "ZI.Lookup.lookupRec_eq_first"]
 PROFILE = dict(weights=[6, 1, 1, 0.5, 0.7, 0.1, 0], queries=["lookup", "lookup1", "lookupAll"], nregs=(1, 3), extra_queries=4,
                arity=[0, 1, 1, 2, 2, 2, 3])
+# the most specific registration *for the specifications as they are now*: histories with declaration / hierarchy changes
+WORLD_PROFILE = dict(weights=[3, 0.8, 0.3, 0.1, 2.5, 2.5, 2, 0.6, 0.2], nregs=(1, 3), extra=1, provq=0, arity=[1, 1, 2, 2, 3],
+                     scen_hit=0.12, scen_rbases=0.04, scen_rebuild=0.03)
 
 
 def check(tier):
@@ -13,7 +16,8 @@ def check(tier):
         "random registries (arity 0-3, names incl. non-ASCII, interface and Declaration keys, None keys) over multiple-inheritance hierarchies; "
         "keys derived from live keys by replacing one position with a relative; distinct_nontrivial = lookups having applicable registrations of >=2 different ranks",
         "lookups_candidates_of_different_rank",
-        "registry-layer correspondence (ZI.Registry.lookup/_lookup vs adapter.py, LookupBase C/py); theorem ZI.Lookup.lookupRec_eq_first")
+        "registry-layer correspondence (ZI.Registry.lookup/_lookup vs adapter.py, LookupBase C/py); theorem ZI.Lookup.lookupRec_eq_first",
+        extra_stream=worldcommon.twin_stream("C04", WORLD_PROFILE, dict(quick=30, thorough=600), ("lookup", "lookup1", "qadapter")))
 
 
 def replay(path):
